@@ -242,6 +242,23 @@ func TestC16(t *testing.T) {
 						failf(rt, rec, o.sig, w.trace, "%s", o.msg)
 					} else if o.ok {
 						rec.Count("ok:init")
+						// the holder of a free name may pay for it while it is live: a renewal like any other
+						if rapid.Bool().Draw(rt, "payForFreeName") {
+							acc := chain.Acc(fresh)
+							for _, key := range sortedNameKeys(w.names()) {
+								if w.names()[key].Value != acc.Bech {
+									continue
+								}
+								w.f.Fund(acc.Addr, sdk.NewCoins(sdk.NewInt64Coin("ujkl", 1_000_000_000)))
+								if o := c16Exec(w, c16Step{Acc: fresh, Name: key, Years: rapid.Int64Range(1, 3).Draw(rt, "yearsForFreeName"), Height: w.f.Height() + rapid.SampledFrom([]int64{0, 1, 100_000, 5_000_000}).Draw(rt, "later")}); o.sig != "" {
+									failf(rt, rec, o.sig, w.trace, "%s", o.msg)
+								} else if o.renewLive {
+									rec.Count("renewal-of-live-free-name")
+									nt = true
+								}
+								break
+							}
+						}
 					} else {
 						rec.Count("rejected:init")
 					}
